@@ -728,6 +728,12 @@ TNAME = {0: "TBoth", 1: "TLog", 2: "TMetric"}
 
 
 def hcase_to_coq(c):
+    acts, obs = hist_terms(c)
+    return "{| hc_id := %d; hc_actions := %s; hc_obs := %s |}" % (c["id"], coq_list(acts), coq_list(obs))
+
+
+def hist_terms(c):
+    """the actions and observations of a history as Coq terms of model/SeriesIndex.v"""
     fpid = {}
 
     def fid(fp):
@@ -784,7 +790,7 @@ def hcase_to_coq(c):
             obs.append("HBad")
         else:
             obs.append("HPush %s %s %s" % (tf(200 <= ob["status"] < 300), coq_list(rows), coq_list(spl)))
-    return "{| hc_id := %d; hc_actions := %s; hc_obs := %s |}" % (c["id"], coq_list(acts), coq_list(obs))
+    return acts, obs
 
 
 def all_streams(st):
@@ -862,6 +868,7 @@ def eval_scases(ck, name, cases):
 
 
 NODES = ("n1", "n2")
+NODE_EVAL = {"cases": 0, "M_hist": 0, "V_hist": 0}
 
 
 def has_nodes(c):
@@ -890,6 +897,37 @@ def node_projections(c, base):
     return out, foreign
 
 
+def ncase_to_coq(c):
+    """round 8: a history over several nodes as ONE case of the product model (model/SeriesNodes.v: one shared cache whose
+    entries carry the node's prefix, a table per node). Per step the observation is what travelled on the connection of
+    the node the request named (an INSERT on another connection is reported by node_projections)."""
+    steps, obs = [], []
+    for st, ob in zip(c["steps"], c["obs"]):
+        nd = st.get("node") or NODES[0]
+        steps.append({x: y for x, y in st.items() if x != "node"})
+        obs.append(ob if st["k"] == "reset" else dict(ob, calls=[cl for cl in ob.get("calls") or [] if (cl.get("node") or NODES[0]) == nd]))
+    acts, hobs = hist_terms({"id": c["id"], "steps": steps, "obs": obs})
+    macts = []
+    for st, a in zip(c["steps"], acts):
+        if st["k"] == "reset":
+            macts.append("MReset")
+        else:
+            macts.append('MAct {| n_node := "%s"%%string; n_db := "qryn"%%string |} (%s)' % (st.get("node") or NODES[0], a))
+    return "{| nc_id := %d; nc_actions := %s; nc_obs := %s |}" % (c["id"], coq_list(macts), coq_list(hobs))
+
+
+def eval_ncases(ck, name, cases):
+    txt = ("From Coq Require Import List ZArith Bool String Uint63.\n"
+           "From Qryn Require Import model.Labels model.SeriesIndex model.CacheKey model.SeriesNodes.\n"
+           "Import ListNotations.\nOpen Scope Z_scope.\n"
+           "Definition cases : list ncase := [\n  " + ";\n  ".join(ncase_to_coq(c) for c in cases) + "].\n"
+           "Definition R := Eval vm_compute in mreport cases.\nPrint R.\n")
+    rc, out = ck.coq_eval(name, txt)
+    if rc != 0:
+        return None, out
+    return parse_report(out, H_LISTS), out
+
+
 def eval_cases(ck, name, cases):
     """histories with a group step are judged by model/SharedInsert.v, the others by model/SeriesIndex.v; a history over two
     nodes is judged node by node (node_projections)"""
@@ -913,6 +951,15 @@ def eval_cases(ck, name, cases):
             return None, out
         for k in H_LISTS:
             res[k] += sorted({back[i] for i in r[k]} - set(res[k]))
+        # round 8: the same histories as ONE run of the product model (shared cache, prefix = node name) and its oracle
+        r, out = eval_ncases(ck, name + "_m", multi)
+        outs += out
+        if r is None:
+            return None, out
+        NODE_EVAL["cases"] += len(multi)
+        for k in H_LISTS:
+            NODE_EVAL[k] += len(r[k])
+            res[k] += sorted(set(r[k]) - set(res[k]))
     for tag, part, fn in (("", [c for c in cases if not has_group(c)], eval_hcases), ("_s", [c for c in cases if has_group(c)], eval_scases)):
         if not part:
             continue
@@ -1296,6 +1343,10 @@ def run_hist(ck):
                                   "pushes to n2": sum(1 for c in ncases for st in c["steps"] if st.get("node") == NODES[1])}
     ck.obligation("histories over two single-server nodes whose database has the same name were generated and ran as intended (the same series acknowledged on both nodes; pushes that announce on one node a series the other node has already confirmed)",
                   nboth >= 12 and nhit >= 12, "%d histories over two nodes, %d with a series on both, %d announcements of a series the other node had" % (len(ncases), nboth, nhit))
+    # round 8: each of them is also ONE run of the product model (model/SeriesNodes.v, shared cache with prefix = node name)
+    ck.extra["hist_two_nodes"]["evaluated as one run of the product model (mrun_obs, m_violation)"] = dict(NODE_EVAL)
+    ck.obligation("every history over two nodes was compared, as ONE history, with the product model of model/SeriesNodes.v (one shared cache of prefixed entries, a table per node: mrun_obs with prefix = node name) and judged by its node-by-node oracle m_violation",
+                  NODE_EVAL["cases"] >= len(ncases) >= 16, "%d evaluations for %d histories over two nodes" % (NODE_EVAL["cases"], len(ncases)))
     ck.add_samples([show_hist(c) for c in ncases if len(c["steps"]) == 3][:1])
     ck.add_samples([show_hist(c) for c in cases if len(c["steps"]) >= 2 and not has_group(c)][:1] + [show_hist(c) for c in cases if has_group(c)][:1])
 
